@@ -220,3 +220,6 @@ for _id, _a in alts_c.ALTS.items():
 
 from alts_d import ALTS_D  # noqa: E402
 ALTS += ALTS_D
+
+from alts_e import ALTS_E  # noqa: E402
+ALTS += ALTS_E
